@@ -21,6 +21,10 @@ func propOf(p string) string {
 		return "C05"
 	case "C08scale":
 		return "C08"
+	case "C09scale":
+		return "C09"
+	case "C06scale":
+		return "C06"
 	}
 	return p
 }
@@ -67,7 +71,7 @@ func eligible(prop string, p *progen.Prog) bool {
 		return emitters(p) > 0
 	case "C19":
 		return emitters(p) > 0 && !emitSlice(p) // routing emitters cannot attribute state reports (they carry no context)
-	case "C03scale", "C05scale":
+	case "C03scale", "C05scale", "C09scale", "C06scale":
 		return p.Par != nil && len(p.Par.Colls) > 0
 	case "C08scale":
 		return p.Par != nil && len(p.Par.Colls) > 0 && (p.Par.COEMode == progen.ArgConst || p.Par.COEMode == progen.ArgRuntime)
@@ -196,7 +200,7 @@ func Generate(rng *rand.Rand, prop, tier string, gomaxprocs int) *Desc {
 	d := &Desc{Engine: "l2", Prop: prop, GOMAXPROCS: gomaxprocs}
 	progs := eligibleProgs(prop)
 	nexec := 1
-	if prop == "C03scale" || prop == "C05scale" || prop == "C08scale" || prop == "C10scale" || prop == "C10scale8" || prop == "C19scale" {
+	if prop == "C03scale" || prop == "C05scale" || prop == "C08scale" || prop == "C10scale" || prop == "C10scale8" || prop == "C19scale" || prop == "C09scale" || prop == "C06scale" {
 		return generateScale(rng, prop, tier, gomaxprocs, progs)
 	}
 	switch r := rng.Intn(10); {
@@ -376,8 +380,8 @@ func Generate(rng *rand.Rand, prop, tier string, gomaxprocs int) *Desc {
 				}
 			}
 		}
-		if rng.Intn(6) == 0 {
-			x.CtxKind = 1
+		if k := rng.Intn(9); k < 2 {
+			x.CtxKind = 1 + k
 		}
 		x.SlowEmit = emitters(p) > 0 && rng.Intn(3) == 0
 		x.SharedErr = rng.Intn(5) == 0
@@ -388,7 +392,7 @@ func Generate(rng *rand.Rand, prop, tier string, gomaxprocs int) *Desc {
 			setBarrier(rng, p, &x, gomaxprocs)
 		}
 		if (prop == "C03" || prop == "C20mod") && p.Flow != nil && rng.Intn(3) == 0 && x.CancelMode == CancelNone {
-			setBarrierFlow(p, &x, gomaxprocs)
+			setBarrierFlow(rng, p, &x, gomaxprocs)
 		}
 		total += 24
 		// nested directive: the body of one task runs another program
@@ -477,7 +481,7 @@ func setBarrier(rng *rand.Rand, p *progen.Prog, x *ExecD, gmp int) {
 // setBarrierFlow: the tasks of a flow that need nothing from other tasks are
 // runnable at the same time; as many of them as the limit allows must be able
 // to run concurrently (they meet at a barrier). Fault-free execution.
-func setBarrierFlow(p *progen.Prog, x *ExecD, gmp int) {
+func setBarrierFlow(rng *rand.Rand, p *progen.Prog, x *ExecD, gmp int) {
 	f := p.Flow
 	prov := map[int]bool{}
 	for i := range f.Tasks {
@@ -486,16 +490,56 @@ func setBarrierFlow(p *progen.Prog, x *ExecD, gmp int) {
 		}
 	}
 	set := map[int]bool{}
-	for _, t := range f.Tasks {
-		if t.Pred != nil {
-			continue
+	if rng.Intn(2) == 0 {
+		// the tasks that are runnable from the start
+		for _, t := range f.Tasks {
+			if t.Pred != nil {
+				continue
+			}
+			free := true
+			for _, in := range t.In {
+				free = free && !prov[in]
+			}
+			if free {
+				set[t.ID] = true
+			}
 		}
-		free := true
-		for _, in := range t.In {
-			free = free && !prov[in]
+	} else {
+		// any set of mutually independent tasks, at whatever depth of the graph: whoever
+		// arrives waits (holding its worker) while the others' providers still run
+		up := f.Upstream()
+		var cand []int
+		for _, i := range rng.Perm(len(f.Tasks)) {
+			if f.Tasks[i].Pred == nil && len(cand) < 14 {
+				cand = append(cand, f.Tasks[i].ID)
+			}
 		}
-		if free {
-			set[t.ID] = true
+		// a largest one (the widest the graph really is, which need not be any one "level" of it)
+		best, bestN := 0, 0
+		for m := 1; m < 1<<len(cand); m++ {
+			n, ok := 0, true
+			for i := 0; i < len(cand) && ok; i++ {
+				if m>>i&1 == 0 {
+					continue
+				}
+				n++
+				for j := 0; j < i && ok; j++ {
+					if m>>j&1 == 1 && (up[cand[i]][cand[j]] || up[cand[j]][cand[i]]) {
+						ok = false
+					}
+				}
+			}
+			if ok && n > bestN {
+				best, bestN = m, n
+			}
+		}
+		for i, id := range cand {
+			if best>>i&1 == 1 {
+				set[id] = true
+			}
+		}
+		if f.ConcMode == progen.ArgRuntime && len(set) >= 2 {
+			x.Conc = min(len(set), 8) // the limit is not what holds the parties back
 		}
 	}
 	limit := 0
@@ -627,6 +671,24 @@ func generateScale(rng *rand.Rand, prop, tier string, gmp int, progs []int) *Des
 			n, large, manyFail = 1500+rng.Intn(2500), true, true
 		case prop == "C08scale":
 			n = rng.Intn(40)
+		case prop == "C09scale" || prop == "C06scale":
+			// collections past 2^10 / 2^12 elements whose context ends early: before the call, from
+			// inside one of the first element calls, or from outside while elements are being run
+			n = 1024 + rng.Intn(1200)
+			if rng.Intn(2) == 0 {
+				n = 4096 + rng.Intn(5000)
+			}
+			if !large {
+				large = true
+				switch rng.Intn(4) {
+				case 0:
+					x.CancelMode = CancelBefore
+				case 1:
+					x.CancelMode, x.DelaySteps = CancelExternal, rng.Intn(4*n)
+				default:
+					x.CancelMode, x.CancelTask, x.CancelOrd = CancelInElem, c.ID, rng.Intn(40)
+				}
+			}
 		case prop == "C05scale" && !large:
 			// a fault right at the beginning of a collection of more than 2^16 elements:
 			// everything behind it is submitted to a scheduler that has stopped, or is skipped
